@@ -79,6 +79,14 @@ def step (st : St) (line : String) : St × String :=
     | some [thr, mult, slashNum, window, pr, unb, pct, nval, n, bal0, h0] =>
       ({ s := { init ⟨thr, mult, slashNum, window, pr, unb, pct, nval⟩ ((List.range n).map fun o => (o, bal0)) with height := h0 }, n := n }, "ok")
     | _ => ({}, "ok")
+  | "intx" :: ws =>
+    -- the op is carried by signed transactions INSIDE the next block's FinalizeBlock: only its result is compared here, the
+    -- state is observed (and compared) after that block
+    match parseOp ws with
+    | none => (st, "bad-op")
+    | some op =>
+      let (s', r) := FxVerif.Model.C13.step st.s op
+      ({ st with s := s' }, showRes r ++ " ~")
   | ws =>
     match parseOp ws with
     | none => match FxVerif.Model.C07Gov.gline ws with   -- gov half of C07 (stateless: the tally inputs are on the line)
